@@ -140,5 +140,48 @@ Summary1Ok(W) ==
     LET blocks == Len(Flatten(Chunks(W, "I", 1))) + Len(W.lvl[1].idx) IN
     W.closed \/ SumN(Chunks(W, "S", 1)) + W.lvl[1].n = blocks * (W.P.spd \div W.P.sdf)
 
-WriterOk(W) == DataOk(W) /\ Index1Ok(W) /\ (\A k \in 2..4 : IndexKOk(W, k)) /\ PairOk(W) /\ ClosedOk(W) /\ Summary1Ok(W)
+--------------------------------------------------------------------------
+(* the reader's descent (src/core.c: jls_core_fsr_seek, jls_core_rd_fsr_level1, jls_core_rd_fsr_data0) over the
+   emitted chunks of a closed signal: from the head of the highest level that has an index chunk, by index
+   arithmetic only, down to the data chunk that holds a sample *)
+
+RECURSIVE Pow(_, _)
+Pow(b, e) == IF e = 0 THEN 1 ELSE b * Pow(b, e - 1)
+\* samples between two entries of an index chunk of level lvl
+StepSize(P, lvl) == IF lvl = 1 THEN P.spd ELSE P.spd * (P.eps \div (P.spd \div P.sdf)) * Pow(P.sumdf, lvl - 2)
+
+TopLevel(W) == IF \E k \in 1..MaxLevel : Chunks(W, "I", k) # <<>>
+               THEN CHOOSE k \in 1..MaxLevel : Chunks(W, "I", k) # <<>> /\ \A j \in (k + 1)..MaxLevel : Chunks(W, "I", j) = <<>>
+               ELSE 0
+
+\* position (ordinal in out) reached at level 1 for sample sid, or 0 when an index does not cover it
+RECURSIVE Descend(_, _, _, _)
+Descend(W, lvl, pos, sid) ==
+    LET c == W.out[pos]
+        i == (sid - c.ts) \div StepSize(W.P, lvl)
+    IN IF c.tag # "I" \/ c.lvl # lvl \/ sid < c.ts \/ i >= c.n THEN 0
+       ELSE IF lvl = 1 THEN pos
+       ELSE IF c.offs[i + 1] = 0 THEN 0 ELSE Descend(W, lvl - 1, c.offs[i + 1], sid)
+
+\* the data chunk the reader finds for sample sid: its ordinal, -1 for an omitted block, 0 for a failure
+Locate(W, sid) ==
+    LET top == TopLevel(W) IN
+    IF top = 0 THEN 0
+    ELSE LET p1 == Descend(W, top, Ordinals(W, "I", top)[1], sid) IN
+         IF p1 = 0 THEN 0
+         ELSE LET c == W.out[p1]
+                  o == c.offs[(sid - c.ts) \div W.P.spd + 1]
+              IN IF o = 0 THEN -1 ELSE o
+
+Total(W) == IF Chunks(W, "I", 1) = <<>> THEN 0
+            ELSE LET d == Chunks(W, "D", 0) IN IF d = <<>> THEN 0 ELSE d[Len(d)].ts + d[Len(d)].n
+
+\* every sample of a closed signal is found: in the data chunk that holds it, or reported as omitted
+SeekOk(W) == W.closed =>
+    \A sid \in 0..(Total(W) - 1) :
+        LET o == Locate(W, sid) IN
+        \/ o = -1
+        \/ o > 0 /\ W.out[o].tag = "D" /\ W.out[o].ts <= sid /\ sid < W.out[o].ts + W.out[o].n
+
+WriterOk(W) == SeekOk(W) /\ DataOk(W) /\ Index1Ok(W) /\ (\A k \in 2..4 : IndexKOk(W, k)) /\ PairOk(W) /\ ClosedOk(W) /\ Summary1Ok(W)
 =============================================================================
